@@ -511,8 +511,16 @@ func TestCheck(t *testing.T) {
 		judge(r, p, res, mode)
 		r.Eval(1)
 	}
+	// GroupTransactSession family (offsets committed with the transaction), see gts_test.go
+	gp := gtsPlans(r)
+	r.Set("gts_plans", len(gp))
+	vh.Parallel(len(gp), 6, func(i int) {
+		res := runGTS(gp[i], 60*time.Second)
+		judgeGTS(r, gp[i], res)
+		r.Eval(1)
+	})
 	r.Finish("fault_enumeration",
-		"evaluations = one transactional-producer scenario (5-6 transactions, commit/abort mix) per fault plan; every single-fault placement (request key in {InitProducerID, AddPartitionsToTxn, Produce, EndTxn} x occurrence 0-2 x {kill-before, kill-after, each retriable code, each fatal code, CONCURRENT_TRANSACTIONS, UNKNOWN_SERVER_ERROR}) is run under KIP-890p2 (quick: and every second one under the older protocol; thorough: all, 10 seeds) plus sampled 2-3 fault plans; non-trivial = the planned fault fired; distinct by (mode, protocol, faults fired, outcome classes)",
+		"evaluations = (a) one transactional-producer scenario (5-6 transactions, commit/abort mix) per fault plan; every single-fault placement (request key in {InitProducerID, AddPartitionsToTxn, Produce, EndTxn} x occurrence 0-2 x {kill-before, kill-after, each retriable code, each fatal code, CONCURRENT_TRANSACTIONS, UNKNOWN_SERVER_ERROR}) is run under KIP-890p2 (quick: and every second one under the older protocol; thorough: all, 10 seeds) plus sampled 2-3 fault plans; (b) one GroupTransactSession scenario (8 transactions producing for all / some / none of the polled records, commit/abort mix) per kill placement on Produce / AddOffsetsToTxn / TxnOffsetCommit (occurrence 0-2, both protocols) plus sampled 1-3 kill plans, judged on the committed group offsets read after every End and on the read_committed output; non-trivial = the planned fault fired (a) / offsets were judged on >=3 transactions (b); distinct by (mode, protocol, faults fired, outcome classes)",
 		"transaction status is read from the log's own markers; a fresh producer with the same transactional id fences and aborts anything left open before the log is read",
 		"a commit attempt that failed while a fault hit an EndTxn request of that transaction is 'unconfirmed': its visibility is not judged (the client cannot know), only that it is not merged into the next transaction",
 		"injected error codes are answered by a Control function without the broker acting, so they never contradict broker state",
